@@ -39,7 +39,8 @@ Print Assumptions C04_roundtrip_medit.
 
 (* geogram_ascii.  pc / rc: '{}'.format and complex() on complex values; f_is_zero x is x == 0.0, c_is_zero z is z == 0j.
    geo_ok m: attribute names are free of double quotes, are not the names the format reserves and are distinct on each
-   container; arities are >= 1; values have the attribute's type; string values are not chunk headers; cells are
+   container (nor 'corner_adjacent_facet' on face corners / 'adjacent_cell', 'opposite_cell' on cell facets, which mouette
+   uses itself); arities are >= 1; values have the attribute's type; string values are not chunk headers; cells are
    tetrahedra (the only cells mouette can write to this format, see C04_geogram_hexahedra_refuted). *)
 Theorem C04_roundtrip_geogram : forall (F Ftxt Cx Ctxt : Type) (pf : F -> Ftxt) (rf : Ftxt -> F) (f_of_int : Z -> F)
     (pc : Cx -> Ctxt) (rc : Ctxt -> Cx) (cx_of_f : F -> Cx) (f_is_zero : F -> bool) (c_is_zero : Cx -> bool),
@@ -116,12 +117,14 @@ Theorem C04_roundtrip_stl_partial : forall (F Cx F32 : Type) (to32 : F -> option
 Proof. exact stl_roundtrip. Qed.
 Print Assumptions C04_roundtrip_stl_partial.
 
-(* ---- the loaded object has the class its content implies (load() = _instanciate_raw_mesh_data of the imported data;
-   both decision chains are regenerated from mesh.py / mesh_data.py) *)
+(* ---- the loaded object has the class its content implies (load() = _instanciate_raw_mesh_data of the imported data, which
+   prepares it: edges that are not valid - endpoints equal or out of range - are dropped; the decision chains and the
+   validity test are regenerated from mesh.py / mesh_data.py) *)
 Theorem C04_class_implied : forall (F Cx : Type) (r : raw F Cx),
-  class_of_raw r = Some (if negb (isnil (rC r)) then "VolumeMesh" else if negb (isnil (rF r)) then "SurfaceMesh"
-                         else if negb (isnil (rE r)) then "PolyLine" else "PointCloud")%string.
-Proof. exact class_implied. Qed.
+  (forall e, In e (rE r) -> edge_valid (zlen (rV r)) e = true) ->
+  class_of_loaded r = Some (if negb (isnil (rC r)) then "VolumeMesh" else if negb (isnil (rF r)) then "SurfaceMesh"
+                            else if negb (isnil (rE r)) then "PolyLine" else "PointCloud")%string.
+Proof. exact class_loaded. Qed.
 Print Assumptions C04_class_implied.
 
 (* ---- element kinds a format cannot express are absent from what its files give back (never turned into something
